@@ -635,6 +635,32 @@ def c10_on_exchange():
     return scripts
 
 
+def c10_shared_response(cfg):
+    """the application hands out ONE response object for all its requests (a pre-built representation), which are of
+    different kinds in turn -- fast CON (piggy-backed), slow CON (separate response after the empty ACK), NON: the
+    type each answer goes out with is chosen for that answer, not left over from the previous one"""
+    EAD = cfg["emptyAckDelay"]
+    scripts = []
+    kinds = {"fast-CON": ("CON", 5000), "slow-CON": ("CON", EAD + 200000), "NON": ("NON", 5000)}
+    names = list(kinds)
+    for a in names:
+        for b in names:
+            for c in (None,) + tuple(names):
+                seq = [a, b] + ([c] if c else [])
+                ev, t = [], 1000
+                for i, k in enumerate(seq):
+                    mtype, delay = kinds[k]
+                    ev.append(request_in(t, 0, 900 + i, "%02x" % (0xa0 + i), mtype=mtype, body=i + 1))
+                    ev.append(respond(t + delay, i, body=20 + i))
+                    t += EAD + 400000
+                ev.append(far_end(ev))
+                scripts.append({"events": ev, "rules": [{"remote": 0, "mtype": "CON", "nth": n, "do": "ack", "after": 300}
+                                                        for n in (1, 2, 3)],
+                                "draws": [2 * M, 2 * M, 2 * M], "mid": 9000, "alias_responses": True,
+                                "tag": "shared-response-object:" + ">".join(seq)})
+    return scripts
+
+
 def c10_random(rng, cfg):
     clock = Clock(rng)
     events, rules = [], []
